@@ -12,20 +12,41 @@ from ..common import REPO, LIBOSMO, ROOT
 
 FW = os.path.join(REPO, "src/target/firmware")
 SERCOMM_C = os.path.join(FW, "comm/sercomm.c")
+OSMOCON_C = os.path.join(REPO, "src/host/osmocon/osmocon.c")
+DRV_GEN = os.path.join(common.WORK, "c", "c06_gen")
 
 FLAG, ESC, CUI = 0x7E, 0x7D, 0x03          # protocol literals of the specification side (oracle)
 RICH = [0x7E, 0x7D, 0x00, 0x5E, 0x5D, 0x20]
 KNOWN_DLCI = [4, 5, 9, 10]                 # SC_DLCI_DEBUG, L1A_L23, LOADER, CONSOLE
 
 
+def drv_function():
+    """the real text of handle_sercomm_write() (fails closed: RuntimeError if the function is not there) and the
+    size of its local buffer[] as written in that text"""
+    txt = common.c_function_text(OSMOCON_C, "handle_sercomm_write")
+    m = re.findall(r"\buint8_t\s+buffer\s*\[\s*(\d+)\s*\]", txt)
+    if len(m) != 1:
+        raise RuntimeError("handle_sercomm_write: local 'uint8_t buffer[N]' not found in the function text")
+    if "sercomm_drv_pull" not in txt:
+        raise RuntimeError("handle_sercomm_write does not call sercomm_drv_pull any more: the C06 driver-glue model does not apply")
+    return txt, int(m[0])
+
+
 def build_c(ctx):
     stubs = os.path.join(ROOT, "charness/stubs")
+    txt, _ = drv_function()
+    os.makedirs(DRV_GEN, exist_ok=True)
+    inc = os.path.join(DRV_GEN, "c06_handle_sercomm_write.inc")
+    tmp = inc + ".%d" % os.getpid()
+    with open(tmp, "w") as f:
+        f.write("/* extracted from %s on every run - do not edit */\n%s\n" % (OSMOCON_C, txt))
+    os.replace(tmp, inc)
     ok, path, log = common.cc(
         "c06",
         [os.path.join(ROOT, "charness/c06.c"), os.path.join(ROOT, "charness/c06_panic.c"),
          os.path.join(LIBOSMO, "src/msgb.c"), os.path.join(LIBOSMO, "src/talloc.c")],
-        flags="-fno-sanitize=vla-bound -DHOST_BUILD -I%s/a/b -I%s -I%s/comm -I%s/include/comm -I%s/include"
-              % (stubs, stubs, FW, FW, LIBOSMO))
+        flags="-fno-sanitize=vla-bound -DHOST_BUILD -I%s -I%s/a/b -I%s -I%s/comm -I%s/include/comm -I%s/include"
+              % (DRV_GEN, stubs, stubs, FW, FW, LIBOSMO))
     if not ok:
         raise RuntimeError("C06 harness does not compile:\n" + log[-3000:])
     return path
@@ -68,6 +89,8 @@ def gen(ctx):
     for coqn, cn in names:
         txt += "Definition %s : Z := %d.\n" % (coqn, c[cn])
     txt += "Definition c_SERCOMM_RX_MSG_SIZE_target : Z := %d.\n" % (tgt[0] if tgt else c["SERCOMM_RX_MSG_SIZE"])
+    txt += "(* sizeof(buffer) of handle_sercomm_write(), src/host/osmocon/osmocon.c, from the function text *)\n"
+    txt += "Definition c_drv_write_buffer : Z := %d.\n" % drv_function()[1]
     txt += "Definition c_named_dlcis : list Z := %s.\n" % common.zlist(
         [c[k] for k in ("SC_DLCI_HIGHEST", "SC_DLCI_DEBUG", "SC_DLCI_L1A_L23", "SC_DLCI_LOADER", "SC_DLCI_CONSOLE", "SC_DLCI_ECHO")])
     ctx.gen("SercommConst", txt)
